@@ -38,6 +38,8 @@ def make_exc(name, what):
     (OSError(errno.EINTR, ...)), as the operating system's own errors do."""
     import errno as _errno
     import os as _os
+    if name.endswith('()'):
+        return EXC_CLASSES[name[:-2]]()            # an instance built without any argument (empty message)
     if ':' in name:
         cname, ename = name.split(':', 1)
         cls = EXC_CLASSES[cname]
@@ -366,6 +368,10 @@ class SimSerial:
         if link.open_fails:
             w.fired['open_fails'] += 1
             w.log('io', self.port, 'open', 'raise', 'open_fails')
+            code = link.spec.get('open_errno')
+            if code:
+                import os as _os
+                raise serial.SerialException(code, "could not open port %s: %s" % (self.port, _os.strerror(code)))
             raise serial.SerialException("simulated: could not open port %s" % self.port)
         if link.handle is not None and link.handle.is_open and w.exclusive:
             w.fired['open_busy'] += 1
